@@ -1,0 +1,9 @@
+//go:build verif
+
+package admin
+
+import "net/http"
+
+// VerifC15Handler returns the handler tree the admin server serves with (property C15 of
+// /verif: what an accepted ui.access value makes of the manual-override endpoints). Read-only.
+func VerifC15Handler(s *Server) http.Handler { return s.handler() }
